@@ -25,6 +25,8 @@ struct Sys {
     endian: Endian,
     /// init 0 = TextArchive::new, init 1 = parsed from bytes (two entries)
     parsed_image: Vec<u8>,
+    /// explore from the new archive only (used by the stateright cross-check)
+    only_new: bool,
 }
 
 #[derive(Clone)]
@@ -47,7 +49,7 @@ impl Sys {
         t.set_message("b", "seed\\nB");
         t.set_message("a", "seedA");
         let parsed_image = t.serialize().expect("serialize seed");
-        Sys { keys, fmt, endian, parsed_image }
+        Sys { keys, fmt, endian, parsed_image, only_new: false }
     }
     fn fresh(&self, init: usize) -> TextArchive {
         if init == 0 {
@@ -94,7 +96,11 @@ impl System for Sys {
     type Key = (TextModel,);
     type Action = Op;
     fn init(&self) -> Vec<Self::State> {
-        vec![(St { init: 0, model: TextModel::new() }, Arc::new(vec![])), (St { init: 1, model: parsed_seed_model() }, Arc::new(vec![]))]
+        let mut v = vec![(St { init: 0, model: TextModel::new() }, Arc::new(vec![]))];
+        if !self.only_new {
+            v.push((St { init: 1, model: parsed_seed_model() }, Arc::new(vec![])));
+        }
+        v
     }
     fn key(&self, s: &Self::State) -> Self::Key {
         (s.0.model.clone(),)
@@ -192,6 +198,68 @@ impl System for Sys {
     }
 }
 
+// ---------------------------------------------------------------------------------------
+// Cross-check of the search engine: the same transition system (from the new archive only)
+// explored by stateright's BFS. The real object is rebuilt from the model state by
+// constructor calls; the unique-state counts of the two engines must agree.
+
+#[derive(Clone, Debug, PartialEq, Eq, Hash)]
+struct SrState {
+    model: TextModel,
+    diverged: bool,
+}
+
+struct SrModel {
+    sys: Arc<Sys>,
+}
+
+impl stateright::Model for SrModel {
+    type State = SrState;
+    type Action = Op;
+    fn init_states(&self) -> Vec<SrState> {
+        vec![SrState { model: TextModel::new(), diverged: false }]
+    }
+    fn actions(&self, state: &SrState, actions: &mut Vec<Op>) {
+        if !state.diverged {
+            actions.extend(System::actions(&*self.sys, &(St { init: 0, model: state.model.clone() }, Arc::new(vec![]))));
+        }
+    }
+    fn next_state(&self, last: &SrState, op: Op) -> Option<SrState> {
+        let mut model = last.model.clone();
+        match &op {
+            Op::Set(k, m) => model.set_message(k, m),
+            Op::Delete(k) => model.delete_message(k),
+            Op::Title(t) => model.title = t.clone(),
+        }
+        // rebuild the real archive from the model state alone, apply the call, observe
+        let mut t = self.sys.fresh(0);
+        t.set_title(last.model.title.clone());
+        if last.model.dirty {
+            t.set_message("zz_scratch", "x");
+            t.delete_message("zz_scratch");
+        }
+        for (k, v) in &last.model.entries {
+            t.set_message(k, &ref_text::escape(v));
+        }
+        Sys::apply(&mut t, &op);
+        let diverged = !self.sys.observe(&t, &model).is_empty();
+        Some(SrState { model, diverged })
+    }
+    fn properties(&self) -> Vec<stateright::Property<Self>> {
+        vec![stateright::Property::<Self>::always("conforms to the reference map", |_, s: &SrState| !s.diverged)]
+    }
+}
+
+fn stateright_cross_check(mut sys: Sys) -> (u64, u64, bool) {
+    use stateright::{Checker, Model};
+    sys.only_new = true;
+    let bfs_states = bfs::explore(&sys, None, None).states;
+    let checker = SrModel { sys: Arc::new(sys) }.checker().threads(8).spawn_bfs().join();
+    let sr_states = checker.unique_state_count() as u64;
+    let clean = checker.discoveries().is_empty();
+    (bfs_states, sr_states, clean)
+}
+
 fn systems(tier: Tier) -> Vec<(String, Sys)> {
     let keys3 = vec!["a", "b", "c"];
     let mut v = vec![
@@ -210,6 +278,15 @@ fn explore(ctx: &Ctx) -> Outcome {
     let mut cov = Coverage::default();
     let mut per_system = Vec::new();
     let mut all_fix = true;
+    // engine cross-check (stateright vs. the harness's own BFS) on the first system
+    {
+        let (name, sys) = systems(ctx.tier).remove(0);
+        let (bfs_states, sr_states, clean) = stateright_cross_check(sys);
+        cov.extra.insert("engine_cross_check".into(), json!({"system": name, "from": "new archive only", "bfs_unique_states": bfs_states, "stateright_unique_states": sr_states, "stateright_found_no_counterexample": clean}));
+        if bfs_states != sr_states {
+            o.machinery(format!("engine cross-check failed: own BFS reached {} states, stateright {}", bfs_states, sr_states));
+        }
+    }
     for (name, sys) in systems(ctx.tier) {
         // initial states must already agree with the model (clean, empty / parsed content)
         for (i, m) in [(0usize, TextModel::new()), (1usize, parsed_seed_model())] {
